@@ -74,8 +74,8 @@ pub fn key_name(k: u8) -> String {
     // a few boundary encodings among ordinary keys
     match k {
         0 => "k0".to_string(),
-        1 => "k1/a".to_string(),
-        2 => "k1/b".to_string(),
+        1 => "/p/a".to_string(),
+        2 => "/p/b".to_string(),
         3 => "k\u{ff}".to_string(),
         _ => format!("k{k}"),
     }
@@ -353,7 +353,7 @@ pub async fn run_client(world: WorldRef, hist: HistoryRef, plan: ClientPlan, sto
                 ReadConsistencyPolicy::EventualConsistency => 2,
             });
             if matches!(op.kind, OpKind::Scan) {
-                let prefix = "k1/".to_string();
+                let prefix = "/p/".to_string();
                 rec.keys = vec![prefix.clone()];
                 if op.path == 2 {
                     let preq = d_engine_proto::client::ScanRequest { client_id: plan.id, prefix: Bytes::from(prefix.clone()) };
